@@ -385,6 +385,54 @@ def findAttrRaw (e : Node) (name : Str) : Option Node :=
 def rawLocalIds (e : Node) (name : Str) : List Nat :=
   (e.attrs.filter fun a => match a.kind with | .attr n _ => localName n == name | _ => false).map (·.id)
 
+/-! ### `Element.normalize` as the library does it: below the element, and in the value of each of its attributes, every
+    run of Text nodes is merged INTO THE FIRST node of the run; an empty Text node is dropped; a Text node whose data
+    cannot be appended to the run so far (the result would not be character data: `a]]` + `>b`) starts a new run.  CDATA
+    sections, comments, PIs, references and elements end a run; elements are normalized in turn.  The dropped nodes
+    keep their data and have no parent afterwards.  Result: the new subtree and the dropped nodes. -/
+mutual
+def normNode : Node → Node × List Node
+  | .mk j k d as ks =>
+    match k with
+    | .elem _ =>
+      let a := normAttrs as
+      let c := normList none ks
+      (.mk j k d a.1 c.1, a.2 ++ c.2)
+    | _ => (.mk j k d as ks, [])
+def normAttrs : List Node → List Node × List Node
+  | [] => ([], [])
+  | (.mk j k d as ks) :: r =>
+    let v := normList none ks
+    let rest := normAttrs r
+    (.mk j k d as v.1 :: rest.1, v.2 ++ rest.2)
+/-- `prev`: the Text node the current run is being merged into (not yet emitted) -/
+def normList (prev : Option Node) : List Node → List Node × List Node
+  | [] => (prev.toList, [])
+  | (.mk j k d as ks) :: r =>
+    match k with
+    | .text =>
+      if d.isEmpty then
+        let x := normList prev r
+        (x.1, .mk j k d as ks :: x.2)
+      else
+        match prev with
+        | some p =>
+          if validText (p.data ++ d) then
+            let x := normList (some (p.withData (p.data ++ d))) r
+            (x.1, .mk j k d as ks :: x.2)
+          else
+            let x := normList (some (.mk j k d as ks)) r
+            (p :: x.1, x.2)
+        | none => normList (some (.mk j k d as ks)) r
+    | .elem _ =>
+      let c := normNode (.mk j k d as ks)
+      let x := normList none r
+      (prev.toList ++ c.1 :: x.1, c.2 ++ x.2)
+    | _ =>
+      let x := normList none r
+      (prev.toList ++ .mk j k d as ks :: x.1, x.2)
+end
+
 def step (s : St) : Op → St × Res
   | .createElement name =>
       if validQName name then let (s', i) := s.fresh (.elem name) []; ({ s' with handles := s'.handles ++ [some i] }, .node i)
@@ -534,7 +582,10 @@ def step (s : St) : Op → St × Res
               ({ s2 with next := s.next + 1, handles := s.handles ++ [some s.next] }, .node s.next))
          | _ => ({ s with handles := s.handles ++ [none] }, .err .hierarchy))
       | none => ({ s with handles := s.handles ++ [none] }, .err .notFound)
-  | .normalize _ => (s, .ok)
+  | .normalize e =>
+      match s.find e with
+      | some en => ({ (s.update e fun n => (normNode n).1) with detached := (s.update e fun n => (normNode n).1).detached ++ (normNode en).2 }, .ok)
+      | none => (s, .err .notFound)
 where
   /-- a CharacterData edit: INDEX_SIZE_ERR from the offset, then the validity of the OUTCOME -/
   dataOp (s : St) (n : Nat) (f : Str → Option Str) : St × Res :=
